@@ -179,6 +179,16 @@ func genMutants(c *vf.Ctx, t *target) {
 	for _, m := range headerEdits(t.nWAL) {
 		add(m)
 	}
+	// header edits that only neutralise a check, on otherwise untouched data
+	add(mutant{K: "hdr", H: "db-crc-0"})
+	for i := 0; i < t.nWAL; i++ {
+		add(mutant{K: "hdr", H: "wal-crc-0", I: i})
+	}
+	// compound mutants: (header edit that neutralises or re-aligns a field,
+	// data edit inside the file that field protects)
+	for _, m := range pairMutants(c, t, r) {
+		raw = append(raw, m)
+	}
 	// compressed domain
 	var zst []mutant
 	Z := t.zstLen
@@ -202,6 +212,104 @@ func genMutants(c *vf.Ctx, t *target) {
 	}
 	zst = append(zst, mutant{K: "append", B: 1}, mutant{K: "append", B: 9})
 	t.mutants = map[string][]mutant{"raw": raw, "zst": zst}
+}
+
+// pairMutants builds the (header edit, data edit) pairs of one stream. For
+// every file of the stream (database, each WAL) data positions are chosen at
+// its first and last byte, inside its own format header, at WAL frame headers
+// and page bodies, and at seeded offsets; each data edit is combined with the
+// header edits that a receiver trusting that field would need to accept it:
+// CRC field zeroed (= absent in proto3), size field moved by the length
+// change, both, or neither CRC (size only). Every pair is installed with a
+// whole-stream write and with a chunked write, and restored.
+func pairMutants(c *vf.Ctx, t *target, r *rand.Rand) []mutant {
+	b, err := os.ReadFile(t.stream)
+	if err != nil {
+		return nil
+	}
+	var out []mutant
+	nPos := c.N(4, 24)
+	start := t.hdrEnd
+	for fi, end := range t.ends {
+		n := end - start
+		if n <= 0 {
+			start = end
+			continue
+		}
+		crc0 := mutant{H: "db-crc-0"}
+		sizeAdd := func(d int64) mutant { return mutant{H: "db-size-add", V: d} }
+		if fi > 0 {
+			crc0 = mutant{H: "wal-crc-0", I: fi - 1}
+			sizeAdd = func(d int64) mutant { return mutant{H: "wal-size-add", I: fi - 1, V: d} }
+		}
+		// positions inside this file
+		pos := []int{start, start + min(20, n-1), end - 1}
+		if fi == 0 {
+			pos = append(pos, start+min(100, n-1)) // inside page 1 behind the database header
+		} else if n > 32+24 {
+			// WAL: header is 32 bytes; frames are 24 + page size
+			ps := int(b[start+8])<<24 | int(b[start+9])<<16 | int(b[start+10])<<8 | int(b[start+11])
+			if ps >= 512 && ps <= 65536 {
+				fr := 24 + ps
+				nfr := (n - 32) / fr
+				if nfr > 0 {
+					last := start + 32 + (nfr-1)*fr
+					pos = append(pos, start+32+8, start+32+16, start+32+24+ps/2, last+2, last+24+ps-1) // frame salts/checksum, page body, last frame
+					if nfr > 1 {
+						mid := start + 32 + (nfr/2)*fr
+						pos = append(pos, mid+10, mid+24+7)
+					}
+				}
+			}
+		}
+		for k := 0; k < nPos; k++ {
+			pos = append(pos, start+r.IntN(n))
+		}
+		for pi, p := range pos {
+			if p < start || p >= end {
+				continue
+			}
+			for _, S := range []int{0, []int{4096, 7, 1021}[pi%3]} {
+				bit := r.IntN(8)
+				// the check is switched off, the data is altered
+				out = append(out, mutant{K: "pair", DK: "flip", P: p, B: bit, Hs: []mutant{crc0}, S: S})
+				if pi < 6 || !c.Quick() {
+					out = append(out,
+						mutant{K: "pair", DK: "drop", P: p, Hs: []mutant{crc0, sizeAdd(-1)}, S: S},
+						mutant{K: "pair", DK: "insert", P: p, B: r.IntN(256), Hs: []mutant{crc0, sizeAdd(+1)}, S: S},
+						// size re-aligned only: the CRC has to catch it
+						mutant{K: "pair", DK: "drop", P: p, Hs: []mutant{sizeAdd(-1)}, S: S},
+						mutant{K: "pair", DK: "dup", P: p, Hs: []mutant{sizeAdd(+1)}, S: S})
+				}
+			}
+		}
+		// all CRC fields zeroed + one flip in this file
+		all := []mutant{{H: "db-crc-0"}}
+		for i := 0; i < t.nWAL; i++ {
+			all = append(all, mutant{H: "wal-crc-0", I: i})
+		}
+		out = append(out, mutant{K: "pair", DK: "flip", P: start + r.IntN(n), B: r.IntN(8), Hs: all})
+		// the check of ANOTHER file switched off: this file's own check must fire
+		if len(t.ends) > 1 {
+			other := mutant{H: "db-crc-0"}
+			if fi == 0 {
+				other = mutant{H: "wal-crc-0", I: 0}
+			}
+			out = append(out, mutant{K: "pair", DK: "flip", P: start + r.IntN(n), B: r.IntN(8), Hs: []mutant{other}})
+		}
+		// last file truncated, its size field shortened accordingly
+		if fi == len(t.ends)-1 && n > 64 {
+			for _, cut := range []int{1, 24, n / 2} {
+				for _, S := range []int{0, 4096} {
+					out = append(out,
+						mutant{K: "pair", DK: "trunc", P: end - cut, Hs: []mutant{crc0, sizeAdd(int64(-cut))}, S: S},
+						mutant{K: "pair", DK: "trunc", P: end - cut, Hs: []mutant{sizeAdd(int64(-cut))}, S: S})
+				}
+			}
+		}
+		start = end
+	}
+	return out
 }
 
 func posClass(t *target, domain string, m mutant) string {
@@ -233,7 +341,7 @@ func posClass(t *target, domain string, m mutant) string {
 func run(c *vf.Ctx) {
 	c.Rule("a case = one (possibly altered) snapshot byte stream, taken from Store.Open(id) of a generated source store, handed to a destination Store sink (raft's Create/Write…/Cancel-or-Close sequence, seeded write split) and to snapshot.Restore; " +
 		"unaltered streams: every split pattern (1 byte, primes, length-prefix/header/file boundaries ±1, whole) and the transport zstd pair with 3 buffer sizes × 3 read sizes + 1-byte trickle; " +
-		"altered streams: bit flip / drop / insert / duplicate / truncate at every header byte, at all boundaries and at sampled (thorough: all for ≤8 KiB, 2000 sampled otherwise) body bytes, appended bytes, header-field edits (sizes ±1, CRC ±1, swapped/dropped/added WAL headers, version, payload kind), the same on the compressed bytes; plus the real NodeTransport pair over TCP with one flipped bit on the wire. " +
+		"altered streams: bit flip / drop / insert / duplicate / truncate at every header byte, at all boundaries and at sampled (thorough: all for ≤8 KiB, 2000 sampled otherwise) body bytes, appended bytes, header-field edits (sizes ±1, CRC ±1, CRC zeroed/absent, swapped/dropped/added WAL headers, version, payload kind), compound (header edit, data edit) pairs per file — CRC field zeroed and/or size field re-aligned together with a flip/drop/insert/duplicate/truncate inside the file that field protects (database, every WAL; WAL header, frame headers, page bodies, first/last byte), each installed with a whole and a chunked write and restored —, the single edits again on the compressed bytes; plus the real NodeTransport pair over TCP with one flipped bit on the wire. " +
 		"distinct = (stream, domain, mutation); non-trivial when the altered bytes differ from the original")
 	c.Assume("\"identical\" is byte equality (sha256) of the database produced by Store.Open→snapshot.Restore on the destination (or by Restore on the stream) with the one produced from the unmodified source store, whose logical dump was checked against the stock-driver SQLite twin when the store was generated")
 	c.Assume("an install counts as failed when no new snapshot is listed in the destination (Write or Close returned an error, Close returned nil without installing because the header never completed, or rqlite exited the process); raft's own byte-count check is not relied upon")
@@ -419,6 +527,14 @@ func run(c *vf.Ctx) {
 			c.Count("install:"+r.Install, 1)
 			c.Count("restore:"+r.Restore, 1)
 			c.Count("altered@"+pc, 1)
+			if r.M.K == "pair" {
+				c.Count("pair_mutants", 1)
+				var hs []string
+				for _, h := range r.M.Hs {
+					hs = append(hs, h.H)
+				}
+				c.Count("pair:"+strings.Join(hs, ",")+"+"+r.M.DK+":install="+r.Install+":restore="+r.Restore, 1)
+			}
 			if r.Install == "not-installed" {
 				c.Count("close_returned_nil_without_installing", 1)
 			}
@@ -430,6 +546,14 @@ func run(c *vf.Ctx) {
 				kind := r.M.K
 				if r.M.K == "hdr" {
 					kind = "hdr:" + r.M.H
+				}
+				if r.M.K == "pair" {
+					// class of the pair, without file index and operands
+					var hs []string
+					for _, h := range r.M.Hs {
+						hs = append(hs, h.H)
+					}
+					kind = "pair:" + strings.Join(hs, ",") + "+" + r.M.DK
 				}
 				k := "install"
 				if strings.Contains(r.Restore, "DIFFERENT") && !strings.Contains(r.Install, "DIFFERENT") {
